@@ -198,6 +198,12 @@ class NewArrayChecker(CustomCallChecker):
             # Or a list of array elements
             case [fst, *rest]:
                 fst, ty = ExprSynthesizer(self.ctx).synthesize(fst)
+                # A generic function cannot be an element: `array[forall T. ...]` would
+                # be a higher-rank type
+                if isinstance(ty, FunctionType) and ty.parametrized:
+                    raise GuppyError(
+                        UnsupportedError(fst, "Polymorphic functions as array elements")
+                    )
                 checker = ExprChecker(self.ctx)
                 for i in range(len(rest)):
                     rest[i], subst = checker.check(rest[i], ty)
